@@ -445,7 +445,7 @@ def _grid(T):
     floats = [0.0, 1e-40, 4e-16, 1e-9, 0.25, 0.5, 1.0, 3.0, 1e16, 1e40]
     fracs = [F(0), F(1, 10**40), F(1, 3), F(1), F(5, 2)]
     # negative values only among exact Fractions: a float sum with cancellation loses digits legitimately
-    exact = fracs + [F(-1, 2), F(-9, 10)]
+    exact = fracs + [F(-1, 2), F(-9, 10), 2 ** 40, 3 ** 30, 7]      # Python ints are exact scores too (no silent fixed-width wrap)
     if T == "Float":
         return [floats + fracs, exact]
     if T == "Real":
